@@ -63,7 +63,9 @@ CFG_SIG = {
 def _open_known_sigs():
     import json
 
-    p = os.path.join(os.path.dirname(os.path.dirname(os.path.abspath(__file__))), "known_findings.json")
+    p = os.environ.get("VERIF_FINDINGS") or os.path.join(
+        os.path.dirname(os.path.dirname(os.path.abspath(__file__))), "known_findings.json"
+    )
     try:
         with open(p) as fh:
             fs = json.load(fh).get("findings", [])
